@@ -24,7 +24,7 @@
 // Not judged (the property statement does not demand it): which failure code a refusal
 // carries; AMP sub-invoice (set) states; an HTLC that was refused *without being recorded*
 // is a new HTLC to the registry when it is presented again, so its verdict may change with
-// the circumstances (counted as `refused_then_other_verdict`, not a violation).
+// the circumstances.
 package c15
 
 import (
@@ -124,6 +124,7 @@ type event struct {
 	key    int
 	right  bool // settle: right preimage
 	replay bool
+	lax    bool // free-running execution judged against the final state only: skip "settle order refers to a recorded settled htlc"
 }
 
 // World is the lock-step pair (or a single store, for the interleaving part).
@@ -141,8 +142,6 @@ type World struct {
 	quiet  bool
 	nViols int
 	keys   int
-	// refused remembers HTLCs refused without being recorded (informational only)
-	refused map[string]bool
 	// base is the history that was re-established on this instance by Replay; every op
 	// executed since then but the current one left the key unchanged (seqmc's reuse rule)
 	base    []string
@@ -392,18 +391,6 @@ func (w *World) Do(op string) error {
 		w.compare(ev, pre0, outs[0], outs[1])
 	}
 	// recorded keys follow the (first) store
-	if ev.class == "htlc" && outs[0].direct != nil {
-		id := fmt.Sprintf("k%d/%s", ev.key, ev.op)
-		if outs[0].post.htlc(ev.key) == nil && (outs[0].direct.Kind == "fail" || outs[0].direct.Kind == "error") {
-			if w.refused == nil {
-				w.refused = map[string]bool{}
-			}
-			w.refused[id] = true
-		} else if w.refused[id] {
-			w.st.info("refused_then_other_verdict")
-			delete(w.refused, id)
-		}
-	}
 	if ev.class == "htlc" {
 		if h := outs[0].post.htlc(ev.key); h != nil {
 			w.rec[ev.key] = recKey{Op: ev.op, Spec: ev.spec, ArrH: w.height()}
@@ -639,7 +626,7 @@ func (w *World) judge(s *side, ev event, pre invObs, out stepOut) {
 				w.violate("settle-preimage", store, string(sp.Pay), fmt.Sprintf("%s: settle ordered (%s) for htlc k%d with a preimage that does not hash to its payment hash %s",
 					ev.op, via, k, want.String()[:16]))
 			}
-			if q := post.htlc(k); q == nil || q.State != "set" {
+			if q := post.htlc(k); !ev.lax && (q == nil || q.State != "set") {
 				st := "unrecorded"
 				if q != nil {
 					st = q.State
